@@ -14,7 +14,8 @@ Tie (every run, against /repo's working tree):
       strict load of the serialized text relabelled to the target's xsd succeeds (fresh model)
         <=> check_version_compatibility lists nothing <=> target in the returned mask <=> set_version is Ok,
       and after a successful set_version: version set, text unchanged but for the xsd name, strict reload as the target.
-    quick: 600 sampled table entries PLUS every table entry of the 288 version-switching element types (about 2700 documents),
+    quick: 600 sampled table entries PLUS every table entry of the 288 version-switching element types (about 2700 documents) and every
+    sub-element of the types with groups nested in groups (index path length >= 3; the mask comes from the inner group's table),
     thorough: EVERY partial-mask table entry in EVERY source version in which it can be built."""
 import os, re, json, shutil
 import concurrent.futures as cf
@@ -375,7 +376,7 @@ def run(tier, seed):
         rule="documents are built from the specification tables: every sub-element / attribute / enumeration value (attribute and "
              "element text) whose version mask is partial, plus every sub-element, attribute and sample value of the 288 element types "
              "whose name has different types in different versions (counts in coverage.table_entries); quick samples 600 entries "
-             "with one source version each and always adds every entry of those 288 version-switching types, thorough takes every entry in every source version in which it can be built; each "
+             "with one source version each and always adds every entry of those 288 version-switching types and every sub-element of the types whose content model nests a group in a group (index paths of length >= 3, enumerated from the specification: PRM-CHAR), thorough takes every entry in every source version in which it can be built; each "
              "document is checked against all 21 target versions (single-file and two-file models with elements restricted to one "
              "file). evaluations = check_compat / set_version operations compared between the real library and the extracted Coq "
              "model; distinct_nontrivial = oracle checks in which the library reported an incompatibility",
